@@ -374,6 +374,16 @@ static int op_sqr(ctx_t *c, const long *a) { /* C A cutoff : mzd_mul(C, A, A) ->
   if (!C) set_result(c, a[0], R);
   return OP_OK;
 }
+static int op_addsqr(ctx_t *c, const long *a) { /* C A cutoff : mzd_addmul(C, A, A) -> the accumulate-a-square route (_mzd_addsqr_even) */
+  mzd_t *A = MAT(a[1]);
+  REQ(ISREG(a[0]) && A && A->nrows == A->ncols && A->nrows > 0);
+  mzd_t *C = c->m[a[0]];
+  if (C) { REQ(C->nrows == A->nrows && C->ncols == A->ncols && !overlaps_reg(c, a[0], a[1])); }
+  REQ(a[2] >= 0);
+  mzd_t *R = L->mzd_addmul(C, A, A, (int)a[2]);
+  if (!C) set_result(c, a[0], R);
+  return OP_OK;
+}
 static int op_djb(ctx_t *c, const long *a) { /* C A B : C = A*B through a compiled DJB map; C must be empty */
   mzd_t *A = MAT(a[1]), *B = MAT(a[2]);
   REQ(ISREG(a[0]) && !c->m[a[0]] && A && B && A->ncols == B->nrows);
@@ -382,6 +392,7 @@ static int op_djb(ctx_t *c, const long *a) { /* C A B : C = A*B through a compil
   djb_t *z = L->djb_compile(Ac);
   mzd_t *C = L->mzd_init(A->nrows, B->ncols);
   L->djb_apply_mzd(z, C, B);
+  if (z->length < 200) L->djb_print(z); /* to stdout, which the run discards */
   L->m4shim_djb_free(z);
   L->mzd_free(Ac);
   set_result(c, a[0], C);
@@ -618,6 +629,14 @@ static int op_ap_lt(ctx_t *c, const long *a) { return do_apply(c, a, AP_LT); }
 static int op_ap_r(ctx_t *c, const long *a) { return do_apply(c, a, AP_R); }
 static int op_ap_rt(ctx_t *c, const long *a) { return do_apply(c, a, AP_RT); }
 static int op_ap_rtt(ctx_t *c, const long *a) { return do_apply(c, a, AP_RTT); }
+static int op_ap_capped(ctx_t *c, const long *a) { /* A P start_row start_col trans : the block-wise column permutation used by PLE, from a row and column on */
+  mzd_t *A = MAT(a[0]); mzp_t *P = PERM(a[1]);
+  REQ(A && P && A->nrows > 0 && A->ncols > 0 && P->length <= A->ncols && a[2] >= 0 && a[2] <= A->nrows && a[3] >= 0 && a[3] <= P->length);
+  for (rci_t i = 0; i < P->length; i++) REQ(P->values[i] >= i && P->values[i] < A->ncols);
+  if (a[4]) L->mzd_apply_p_right_trans_even_capped(A, P, (rci_t)a[2], (rci_t)a[3]);
+  else L->mzd_apply_p_right_even_capped(A, P, (rci_t)a[2], (rci_t)a[3]);
+  return OP_OK;
+}
 static int op_mzp_copy(ctx_t *c, const long *a) { /* P Q */
   mzp_t *Q = PERM(a[1]);
   REQ(ISP(a[0]) && Q);
@@ -873,6 +892,7 @@ const opdesc_t op_table[] = {
   { "mul_mp", op_mul_mp, 4, "C A B cutoff" },
   { "addmul_mp", op_addmul_mp, 4, "C A B cutoff" },
   { "sqr", op_sqr, 3, "C A cutoff" },
+  { "addsqr", op_addsqr, 3, "C A cutoff" },
   { "djb", op_djb, 3, "C A B" },
   { "ech_naive", op_ech_naive, 2, "A full" },
   { "ech_m4ri", op_ech_m4ri, 3, "A full k" },
@@ -910,6 +930,7 @@ const opdesc_t op_table[] = {
   { "ap_right", op_ap_r, 2, "A P" },
   { "ap_right_trans", op_ap_rt, 2, "A P" },
   { "ap_right_trans_tri", op_ap_rtt, 2, "A P" },
+  { "ap_capped", op_ap_capped, 5, "A P start_row start_col trans" },
   { "mzp_copy", op_mzp_copy, 2, "P Q" },
   { "mzp_window", op_mzp_window, 3, "P begin end" },
   { "col_swap", op_col_swap, 3, "A i j" },
